@@ -80,6 +80,7 @@ class Hostile:
         self.rng = rng
         self.nav = nav_commands()
         self.prefs = pref_names()
+        self._enums = None
 
     # -- strings passed as MathML -------------------------------------------------------------
     def mathml(self):
@@ -211,6 +212,14 @@ class Hostile:
 
     def pref_pair(self):
         r = self.rng
+        if r.random() < 0.35:
+            # a documented value of a documented preference (the enumerators named in the comment of its prefs.yaml line): rules that test a
+            # rarely used value are only reached when that value is really set
+            if self._enums is None:
+                self._enums = sorted((n, v[1]) for n, v in configs.prefs_yaml().items() if v[1])
+            if self._enums:
+                n, vals = r.choice(self._enums)
+                return n, r.choice(vals)
         return r.choice(self.prefs), r.choice(PREF_VALUES)
 
     def node_id(self, valid_ids):
